@@ -2,6 +2,7 @@ package checks
 
 import (
 	"fmt"
+	"strings"
 
 	"verif/harness/mc"
 )
@@ -414,6 +415,64 @@ func mspecsEvents(tier string) []*mc.MSpec {
 						w.Svc.Reset([]string{"test.c", "test.x"}, nil)
 					}))
 				}
+			}
+			return out
+		},
+	}}
+}
+
+// mspecsC10: isolation of token state. Two connections on a shared model;
+// the service gives each of them tokens with the token ids a / b / none in any
+// order (a connection may move from one id to another, both may share one),
+// sends system.tokenReset for a, for b and for both, lets connection 2
+// disconnect, and the clients call a method (every request at the messaging
+// boundary must carry the caller's own id and current token, and a token reset
+// must reach exactly the connections whose current token id is listed).
+func mspecsC10(tier string) []*mc.MSpec {
+	sc := &mc.Scenario{
+		Name: "M/iso", NoEvict: true, Init: basicInit,
+		Conns:    []mc.ConnSpec{{}, {}},
+		Monitors: allMons(),
+	}
+	tids := []string{"a", "b", ""}
+	return []*mc.MSpec{{
+		Name: "iso", Scenario: sc,
+		MaxDepth: map[string]int{"quick": 6, "thorough": 8},
+		Alphabet: func(w *mc.World) []mc.MAct {
+			if v := versionFirst(w.Conns[0], 0); v != nil {
+				return v
+			}
+			var out []mc.MAct
+			for i, c := range w.Conns {
+				i := i
+				if c.Disposed {
+					continue
+				}
+				if pendingOn(c) < 1 {
+					if c.Client.Direct["test.m"] < 1 {
+						out = append(out, sendAct(i, "subscribe.test.m", ""))
+					}
+					out = append(out, sendAct(i, "call.test.m.set", `{}`))
+				}
+				key := fmt.Sprintf("tok%d", i)
+				if n := counter(w, key); n < 2 {
+					for _, tid := range tids {
+						tid := tid
+						out = append(out, svcAct(fmt.Sprintf("token-c%d/%s", i+1, tid), func(w *mc.World) {
+							bump(w, key)
+							w.Svc.TokenEvent(i, fmt.Sprintf(`{"u":%d,"n":%d}`, i+1, n+1), tid)
+						}))
+					}
+				}
+			}
+			if counter(w, "tr") < 2 {
+				for _, set := range [][]string{{"a"}, {"b"}, {"a", "b"}} {
+					set := set
+					out = append(out, svcAct("tokenReset/"+strings.Join(set, "+"), func(w *mc.World) { bump(w, "tr"); w.Svc.TokenReset("auth.test.renew", set...) }))
+				}
+			}
+			if !w.Conns[1].Disposed {
+				out = append(out, mc.MAct{Name: "c2:disconnect", Do: func(w *mc.World) { w.Disconnect(w.Conns[1]) }})
 			}
 			return out
 		},
